@@ -38,6 +38,7 @@ def taint_rule(R, sm, bv):
         return 0
     # clearance edges
     clear = set()
+    merged_sw = []
     verify_calls = [(bi, t) for bi, t in bv.calls() if t.get("trait") == "cup_ecdsa::Cupv2RequestHandler" and t.get("name") == "verify_response"]
     verify_ok = False
     for bi in sorted(bv.reach0):
@@ -50,7 +51,7 @@ def taint_rule(R, sm, bv):
         if "verify_response" not in desc and (lib.head_call(si.term) or "").endswith("verify_response"):
             desc = "verify_response<-" + desc      # produced by verify_response inside a closure handed to Option::map
         if "verify_response" in desc and not (lib.head_call(si.term) or "").endswith("verify_response"):
-            R.violation("C02-R1", "verify-result-merged:" + bv.name.split("::")[-2], "the value tested as the verification result is not the answer of verify_response on every path: " + desc[:160], lib.loc(bv, bi))
+            merged_sw.append((bi, si, desc))
             continue
         if "verify_response" in desc and "std::ops::Try::branch" in desc and si.ty.get("d") == "std::ops::ControlFlow":
             for b in bv.succ[bi]:
@@ -68,6 +69,44 @@ def taint_rule(R, sm, bv):
                 names = si.edge_names(bv, b)
                 if "Some" not in names:
                     clear.add((bi, b))
+    # a tested value that *merges* results built in place (what is left of `fn verify(..) -> Result<Option<Sig>, E>` after
+    # inlining: `Ok(None)` without a handler, `Ok(Some(sig))` after verification, `Err(e)`): it clears what follows iff every
+    # place that builds an `Ok` lies behind a clearance edge established above
+    for (bi, si, desc) in merged_sw:
+        ok_sites, unread = [], []
+        seen_l = set()
+
+        def _sites(l):
+            if l in seen_l:
+                return
+            seen_l.add(l)
+            for (dbi, dsi, kind, x) in bv.defs.get(l, []):
+                if dbi not in bv.reach0:
+                    continue
+                if kind == "call":
+                    if lib.norm(x.get("callee") or "") == "std::ops::Try::branch" and x["args"] and (x["args"][0].get("m") or x["args"][0].get("c")) and not (x["args"][0].get("m") or x["args"][0].get("c")).get("p"):
+                        _sites((x["args"][0].get("m") or x["args"][0].get("c"))["l"])
+                    else:
+                        unread.append(dbi)
+                elif x["k"] == "agg" and x.get("ak") == "adt" and x.get("vn") in ("Ok", "Continue"):
+                    ok_sites.append(dbi)
+                elif x["k"] == "agg" and x.get("ak") == "adt" and x.get("vn") in ("Err", "Break"):
+                    pass
+                elif x["k"] == "use" and (x["o"].get("m") or x["o"].get("c")) is not None and not (x["o"].get("m") or x["o"].get("c")).get("p"):
+                    _sites((x["o"].get("m") or x["o"].get("c"))["l"])
+                else:
+                    unread.append(dbi)
+        sub = bv.switch_subject(bi)
+        if sub is not None and not sub[0].get("p"):
+            _sites(sub[0]["l"])
+        cleared = bool(ok_sites) and not unread and all(bv.dominated_by_edge(b_, sorted(clear)) for b_ in ok_sites)
+        if cleared:
+            for b in bv.succ[bi]:
+                if any(nm_ in ("Continue", "Ok") for nm_ in si.edge_names(bv, b)):
+                    clear.add((bi, b))
+                    verify_ok = True
+        else:
+            R.violation("C02-R1", "verify-result-merged:" + bv.name.split("::")[-2], "the value tested as the verification result is not the answer of verify_response on every path: " + desc[:160], lib.loc(bv, bi))
     # the borrow chain into verify_response(resp) is the only use allowed while tainted
     allowed_blocks = set()
     borrow_locals = set()
@@ -89,6 +128,8 @@ def taint_rule(R, sm, bv):
                             allowed_blocks.add((dbi, si_))
                         elif [e["k"] for e in base.get("p", [])] == ["deref"]:
                             nxt = base["l"]
+                    elif kind == "rv" and x["k"] == "use" and (x["o"].get("m") or x["o"].get("c")) is not None and not (x["o"].get("m") or x["o"].get("c")).get("p"):
+                        nxt = (x["o"].get("m") or x["o"].get("c"))["l"]      # the reference handed on by value (argument of an inlined helper)
                 cur = nxt
     # .. or captured by the closure that performs the verification (`.map(|(h, m)| h.verify_response(m, &response, ..))`)
     for bi in sorted(bv.reach0):
@@ -200,9 +241,17 @@ def run(F, R):
         from .. import optnorm, flow as _flow, terms as _terms
         W2 = _flow.World([c])
         meta = None
-        for x in walk(bi_.trace_local(0)):
-            if x[0] == "agg" and x[1] == "tuple" and len(x[3]) == 2:
-                meta = x[3][1]
+        ret0_ = bi_.trace_local(0)
+        for alt_ in (ret0_[1] if ret0_[0] == "phi" else [ret0_]):
+            # the (intermediate, metadata) pair under Ok(..) of the return value itself (not some pair inside it)
+            if alt_[0] == "agg" and alt_[1] == "adt" and (alt_[2] or "").endswith("Result::Ok") and alt_[3]:
+                x = strip(alt_[3][0])
+                if x[0] == "agg" and x[1] == "tuple" and len(x[3]) == 2:
+                    meta = x[3][1]
+        if meta is None:
+            for x in walk(ret0_):
+                if x[0] == "agg" and x[1] == "tuple" and len(x[3]) == 2 and "RequestMetadata" in fmt_t(x[3][1])[:4000]:
+                    meta = x[3][1]
         ok = False
         det = "no (intermediate, metadata) tuple returned"
         if meta is not None:
